@@ -159,6 +159,16 @@ Theorem env_only_when_requested_history : forall rf T f env calls on,
 Proof. exact load_history_independent. Qed.
 Print Assumptions env_only_when_requested_history.
 
+(* conf keeps nothing between loads: in a history of loads of arbitrary (also different) configuration types, formats
+   and documents in one process, every load gives what the same (type, format, document) gives alone — whatever was
+   loaded before it, successfully or not.  ([conf_history true]: the kept-field-info variant of seeded change C17-10,
+   refuted in Pinned.v; tied by the executor, which loads every type several times per process, in every format order,
+   and types sharing section types after one another, and compares repeated loads.) *)
+Theorem load_independent_of_earlier_loads : forall rf h kept,
+  conf_history false rf kept h = map (fun r => load_doc rf (fst (fst r)) (snd (fst r)) (snd r)) h.
+Proof. exact conf_history_independent. Qed.
+Print Assumptions load_independent_of_earlier_loads.
+
 (* conf.UseEnv() matters only where a '$' stands: a document without '$' in any key or string value
    loads the same with and without the option, under every environment *)
 Theorem use_env_irrelevant_without_dollar : forall rf T f env d use_env,
